@@ -1,13 +1,18 @@
 PROP = {
     "id": "C03",
     "theorem_modules": ["Verif.Properties.C03"],
-    "min_theorems": 10,
+    "min_theorems": 15,
     "required_theorems": [
+        "Verif.Properties.C03.sound_branching_partial",
         "Verif.Properties.C03.sound_straightline_partial",
+        "Verif.Properties.C03.sound_loops_clean_partial",
+        "Verif.Properties.C03.sound_loops_partial",
+        "Verif.Properties.C03.unsound_witness_break_in_returning_branch",
         "Verif.Properties.C03.merge_pointwise",
         "Verif.Properties.C03.errors_accumulate",
         "Verif.Properties.C03.judge_paths_are_paths",
         "Verif.Properties.C03.judge_nonlinear_exact",
+        "Verif.Properties.C03.judge_exact_loopfree_partial",
         "Verif.Properties.C03.unsound_witness_loop_then_halt",
         "Verif.Properties.C03.incomplete_witness_break",
         "Verif.Properties.C03.incomplete_witness_halt",
@@ -25,15 +30,23 @@ PROP = {
                   "return/halt levels, ReturnInfo merges, loop jump offsets, checkResourceLoss with the "
                   "DefinitelyExited && !MaybeJumped skip, unreachable statements, optional binding, swap) over a "
                   "statement language read from the real parser's AST. Judge: non-deterministic path semantics "
-                  "(events create/use/move/destroy/scopeEnd, Linear). Proved: soundness of the port w.r.t. the path "
-                  "semantics for straight-line functions (sound_straightline_partial), the pointwise characterisation "
-                  "of Resources.MergeBranches (merge_pointwise), error accumulation, exactness of the judge's not-linear verdict for all functions and unroll bounds (judge_paths_are_paths, judge_nonlinear_exact). The full-strength statements are "
-                  "false of the code: one soundness counterexample (loop invalidation followed by a halt) and four "
-                  "completeness counterexamples are proved about the port and replayed on the Go checker (known findings). "
+                  "(events create/use/move/destroy/scopeEnd, Linear). Proved, for all functions of the stated shape: "
+                  "soundness of the port w.r.t. the path semantics for loop-free functions with if/else and optional "
+                  "binding (sound_branching_partial; straight-line corollary sound_straightline_partial), and for "
+                  "functions with loops but without break/continue under the decidable syntactic hypothesis "
+                  "noHaltAfterInvalidatingLoop (sound_loops_partial, via the semantic hypothesis loopsClean in "
+                  "sound_loops_clean_partial); the pointwise characterisation of Resources.MergeBranches "
+                  "(merge_pointwise), error accumulation, exactness of the judge's not-linear verdict for all functions "
+                  "and unroll bounds (judge_paths_are_paths, judge_nonlinear_exact), exactness of the judge in both directions for loop-free functions (judge_exact_loopfree_partial). The full-strength statements are "
+                  "false of the code: two soundness counterexamples (loop invalidation followed by a halt; a break in a "
+                  "branch that otherwise returns, found by the proof) and four completeness counterexamples are proved "
+                  "about the port and replayed on the Go checker (known findings). "
                   "Tie: stream `lin` compares the multiset of error kinds of the real checker with the port on every "
                   "generated function (0 differences) and judges acceptance against the path semantics (loops unrolled <= 2).",
-    "level_note": "proof (code-shaped model, partial) + CC. Soundness is proved for the straight-line fragment only; "
-                  "conditionals and loops are covered by the stream's path judge, not by a theorem. "
+    "level_note": "proof (code-shaped model, partial) + CC. Soundness is proved for loop-free functions and for loops "
+                  "without break/continue (under noHaltAfterInvalidatingLoop); break/continue inside loops are covered by "
+                  "the stream's path judge only (and the statement is false there: accepts-nonlinear-jump-in-returning-branch). "
+                  "Completeness is not proved (three known incompleteness classes). "
                   "paths_unroll2_complete is not proved (the judge's completeness verdicts rely on unrolling <= 2).",
     "assumptions": ["variable names unique per function (generated programs; checked by the driver)",
                     "the judge enumerates paths with every loop unrolled at most twice"],
